@@ -122,6 +122,21 @@ pub fn run(seed: u64, n: usize, out: &mut Out, tier: &str) {
                     out.bump("scheme_spelling_probes");
                 }
             }
+            // an engine saved and loaded again applies the options exactly as before (everything a loaded rule
+            // carries that is derived from its option lists is as the parser left it)
+            if let Ok(bytes) = e.serialize_raw() {
+                let mut e2 = adblock::Engine::default();
+                if e2.deserialize(&bytes).is_ok() {
+                    for q in reqs.iter() {
+                        let (a, b) = (e.check_network_request(&q.req), e2.check_network_request(&q.req));
+                        if a.matched != b.matched || a.exception.is_some() != b.exception.is_some() || a.important != b.important {
+                            out.fail("reloaded-engine-applies-options-differently", None, json!({"rule": line, "url": q.url, "source": q.src, "type": q.ty,
+                                "matched": a.matched, "matched_after_reload": b.matched, "exception": a.exception, "exception_after_reload": b.exception}));
+                        }
+                    }
+                    out.add("reloaded_engine_probes", reqs.len() as u64);
+                }
+            }
             let hits = imp.matches('1').count();
             out.add("rule_request_pairs", reqs.len() as u64);
             out.add("pairs_applying", hits as u64);
